@@ -349,3 +349,28 @@ func CheckRun[P any](t *testing.T, r *Run, gen func(*rapid.T) P, exec func(P) Ou
 		}
 	})
 }
+
+// FuzzOf runs the same property under Go's coverage-guided fuzzer: the fuzzer's bytes drive
+// rapid's generator (rapid.MakeFuzz), so every input is a well-formed case of the property and
+// the oracle is the one the rapid unit uses. `unit` is the name of that rapid unit: a failing
+// case is written as its ordinary violation file (replayable with ./check <ID> --replay).
+// Each fuzz worker is a separate process; counters are appended to a per-process stats file.
+func FuzzOf[P any](f *testing.F, prop, unit string, gen func(*rapid.T) P, exec func(P) Outcome) {
+	r := Begin(prop, unit)
+	f.Add([]byte{})
+	f.Add([]byte("\x00\x01\x02\x03\x04\x05\x06\x07\x08\x09\x0a\x0b\x0c\x0d\x0e\x0f"))
+	f.Add([]byte("\xff\xff\xff\xff\xff\xff\xff\xff\xff\xff\xff\xff\xff\xff\xff\xff\xff\xff\xff\xff\xff\xff\xff\xff"))
+	f.Fuzz(rapid.MakeFuzz(func(rt *rapid.T) {
+		p := gen(rt)
+		o := exec(p)
+		if o.Skip {
+			return
+		}
+		if o.Viol != nil {
+			if r.Violation(o.Viol, p) {
+				return
+			}
+			rt.Fatalf("violation %s: %s", o.Viol.Sig, o.Viol.Msg)
+		}
+	}))
+}
